@@ -533,6 +533,11 @@ func (n *node) checkCardinality() error {
 		if c.Type().IsDataNode() {
 			cmap[NodeDataDef] = cmap[NodeDataDef] + 1
 		}
+		// 'deviate add' etc. have their own node types; a deviation
+		// needs at least one 'deviate' of whatever kind.
+		if c.Type().IsDeviateNode() {
+			cmap[NodeDeviate] = cmap[NodeDeviate] + 1
+		}
 	}
 	//Check against cardinality table
 	for k, v := range n.card {
